@@ -1,4 +1,5 @@
 import St4sd.Model.Cache
+import St4sd.Model.CacheAmbient
 /-!
 # C08 — witness for the unrepaired cache invalidation
 
@@ -10,7 +11,7 @@ query returns the stale configuration (replayed on the real code by harness/c08.
 `fixes/C08-cache-regex-escape.diff`).
 -/
 namespace St4sd.C08.Witness
-open St4sd.Tree
+open St4sd.Tree St4sd.Str
 
 /-- unrepaired: the pattern built from `a+b` does not match the label of `stage0.a+b` … -/
 theorem old_pattern_misses_own_label :
@@ -30,5 +31,36 @@ theorem fixed_pattern_matches_own_label :
 /-- the fragment matcher agrees with the literal one on a name without metacharacters -/
 theorem old_pattern_plain_name :
     invalidatesOld 1 "c0".toList ⟨"p".toList, 1, "c0".toList⟩ = true := by decide
+
+/-! ### a report produced INSIDE an update (between the invalidating fetch and the write) -/
+
+private def dW : Desc :=
+  { platforms := [defaultName], blueprint := [],
+    variables := [(defaultName, { global := [(['g'], .str ['1'])], stages := [] })],
+    comps := [⟨0, ['c'], [("stage".toList, .int 0), ("name".toList, .str ['c']),
+                          ("command".toList, .dict [("arguments".toList, .str "%(g)s".toList)]),
+                          ("variables".toList, .dict [])]⟩] }
+
+private def argsW (a : Except Err Val) : Option S :=
+  match a with
+  | .ok v => match lookupPath ["command".toList, "arguments".toList] v with
+    | some (.str t) => some t
+    | _ => none
+  | .error _ => none
+
+/-- `Props/C08.logging_is_invisible` covers what a verbose process does before and after a call.  A report made
+between the fetch of a component-level update and its write is not of that shape, and it breaks the property: the
+query after `set_component_option('#command.arguments', 'new')` still answers the old arguments although the
+description resolves to the new ones.  (harness/c08.py runs its streams with logging enabled for this reason.) -/
+theorem report_inside_update_goes_stale :
+    let s := (setOptionReportingInside 50 (init dW) 0 ['c'] "#command.arguments".toList (.str "new".toList) defaultName).1
+    argsW (step 50 s (.query 0 ['c'] defaultName)).2 = some ['1'] ∧
+    argsW (resolve s.desc defaultName 0 ['c'] false 50) = some "new".toList := by decide +kernel
+
+/-- the same update made by the code that exists answers the new arguments -/
+theorem plain_update_is_seen :
+    let s := (step 50 (step 50 (init dW) (.query 0 ['c'] defaultName)).1
+               (.setOption 0 ['c'] "#command.arguments".toList (.str "new".toList))).1
+    argsW (step 50 s (.query 0 ['c'] defaultName)).2 = some "new".toList := by decide +kernel
 
 end St4sd.C08.Witness
